@@ -29,6 +29,8 @@ def run():
     for r in RUNNERS:
         C.require_build(r)
         C.say("built " + r)
+    C.require_build("gensim", features=["extras"], variant="extras")
+    C.say("built gensim (grammar-extras)")
     # option variants of parsesim used by the C20 configuration swarm (warm the per-variant target dirs)
     from . import c20
     bins, failed = c20.build_variants(list(c20.VARIANTS))
